@@ -1,8 +1,9 @@
 (** Extraction of the executable C18 models to OCaml (ExtrOcamlBasic only). *)
 From Coq Require Import Extraction ExtrOcamlBasic.
-From XV Require Import C18.Spec18 C18.Model18 C18.Model18X C18.Model18A C18.Model18I C18.Model18M.
+From XV Require Import C18.Spec18 C18.Model18 C18.Model18X C18.Model18A C18.Model18I C18.Model18M C18.Model18J C18.Model18V Gen.GenC18Janitor.
 Extraction Language OCaml.
 Extraction "../ocaml/C18/gen_c18.ml" ledger_check restrict alloc_sizes trace_len
   xcfg64 header xinit xstep xrun
   ainit astep areports arena_trace
-  pristine istep irun long_max mpristine mstep.
+  pristine istep irun long_max mpristine mstep
+  guard_sites ctor_ok jlife ljlife vinit vrun vdestroy.
